@@ -108,7 +108,9 @@ def run(rep, tier, seed):
     lr, glr = gen(rng, tier)
     fixed = lf.replay_known(rep, "C15", oracle)
     lr = fixed + lr
+    lf.add_histories(rng, lr)
     lf.run_cases(lr, extra_requests=lambda c: ["cert lr-total"])
+    lf.add_histories(rng, glr)
     lf.run_cases(glr, model=False)
     check(rep, lr, glr, proofs_ok)
 
@@ -143,5 +145,6 @@ def replay(rep, path):
     algo = p.get("algo", "LR")
     c = lf.Case(p["grammar"], p["settings"].split(" "), [(algo, p.get("partial", "0"), p.get("input", ""), {})], gram=None)
     glr = algo.startswith("GLR")
+    lf.apply_replay_history(c, p)
     lf.run_cases([c], model=not glr, extra_requests=None if glr else (lambda c: ["cert lr-total"]))
     check(rep, [] if glr else [c], [c] if glr else [], True)
